@@ -85,12 +85,14 @@ def r09_2(ctx: Ctx):
     out = evo.rule_affine(ctx, rid)
     if 'P2D' in out and 'D2P' in out:
         (gp, yp, ip), (gd, yd, idd) = out['P2D'], out['D2P']
-        # substitute the result of P2D for the input of D2P (same coordinate symbol)
-        m = {key_of(idd): key_of(ip)} if key_of(idd) != key_of(ip) else {}
-        gd2 = C.subst_rf(C.strip_rf(gd), {C.strip_versions(k): C.strip_versions(v) for k, v in m.items()})
-        yd2 = C.strip_versions(C.subst_key(key_of(yd), m)) if m else C.strip_versions(key_of(yd))
-        comp = C.subst_rf(gd2, {yd2: key_of(C.strip_rf(gp))})
-        ok = comp.equals(C.strip_rf(yp))
+        ren = {}
+        if ip is not None and idd is not None and key_of(idd) != key_of(ip):
+            ren = {C.strip_versions(key_of(idd)): C.strip_versions(key_of(ip))}
+        gd2 = C.subst_rf(gd, ren) if ren else gd
+        ydk = C.subst_key(key_of(yd), ren) if ren else key_of(yd)
+        # D2P reads its coordinate from wherever it keeps it; P2D's result is what it is applied to
+        comp = C.subst_rf(gd2, {ydk: key_of(gp)})
+        ok = comp.equals(yp)
         ctx.check(ok, rid, 'Evolvent transforms', evo.evo_of(ctx).p2d.loc(), 'D2P(P2D(y)) = y algebraically',
                   f'D2P(P2D(y)) normalises to {C.fmt(comp)}, not to y: the inverse query does not undo the forward '
                   f'coordinate map', key=f'{rid}::composition')
